@@ -59,6 +59,11 @@ func runC01(r *run) {
 	treat := map[int]int{9: 4, 10: 4, 11: 2}
 	names := map[string]int{}
 	for _, c := range c01Custom {
+		// a registration that is refused (the title is taken) leaves nothing behind: the value is registered
+		// for real right afterwards, possibly with another treated-as level or none
+		if err := slog.RegisterLevel(slog.Level(c.v), "info", slog.RegWithTreatedAsLevel(slog.ErrorLevel)); err == nil {
+			fmt.Println("harness: C01 registration under a used title unexpectedly accepted")
+		}
 		var opts []slog.RegOpt
 		tstr := "none"
 		if c.treatAs != -1000 {
